@@ -549,6 +549,13 @@ struct RefTarget {
 
     [[nodiscard]] auto cmember(int x) const noexcept -> int { return id * 10 - x; }
 
+    // takes its argument by value: an rvalue argument must arrive as an rvalue (moved, not copied)
+    auto take(Tracked t) -> int
+    {
+        ++count;
+        return id * 10 + t.v;
+    }
+
     [[nodiscard]] auto is_odd(int x) const -> bool { return (x + id) % 2 != 0; }
 };
 
@@ -612,7 +619,19 @@ struct RefDriver : DriverBase<RefDriver> {
                 }
                 return true;
             };
-            if (op == "fr_rebind") {
+            if (op == "fr_const") {
+                // bound through a const lvalue: the const call operator must be selected
+                int r   = 1;
+                int ret = 0;
+                if (call(-1, false, false, [&] {
+                        RefTarget const& ct = target[t];
+                        FR f(ct);
+                        FR g(f);
+                        ret = g(x, r);
+                    })) {
+                    expect(only_target_called(-1, 0) && ret == -(target[t].id * 100) && r == 1 + 2 * x, "diff:function_ref:const-callable", "function_ref bound to a const object did not call the const overload");
+                }
+            } else if (op == "fr_rebind") {
                 call(-1, false, false, [&] { fr[a].emplace(target[t]); });
                 bound[a] = t;
                 ++ctx.stateChanging;
@@ -779,10 +798,35 @@ struct RefDriver : DriverBase<RefDriver> {
                     expect(got2 == !target[t].is_odd(x), "diff:not_fn:member", "not_fn over a member function pointer returned the wrong result");
                 }
             } else if (op == "invoke") {
-                int const form = static_cast<int>(st.k[0] % 7);
+                int const form = static_cast<int>(st.k[0] % 10);
                 ctx.log.kv("form", form);
                 int ret = 0;
                 target[t].data = 40 + x;
+                if (form >= 7) {
+                    // an rvalue class-type argument must be forwarded as an rvalue in every INVOKE case
+                    Tracked arg(x);
+                    uint64_t const copiesBefore = reg().copies;
+                    bool ok = call(-1, false, false, [&] {
+                        switch (form) {
+                        case 7: ret = etl::invoke(&RefTarget::take, target[t], static_cast<Tracked&&>(arg)); break;
+                        case 8: ret = etl::invoke(&RefTarget::take, &target[t], static_cast<Tracked&&>(arg)); break;
+                        default: ret = etl::invoke(&RefTarget::take, etl::ref(target[t]), static_cast<Tracked&&>(arg)); break;
+                        }
+                    });
+                    if (ok) {
+                        expect(only_target_called(t, 1) && ret == target[t].id * 10 + x, "diff:invoke:member-function", "invoke with a member function pointer did not call the object once");
+                        expect(reg().copies == copiesBefore && arg.v == kMovedFrom, "diff:invoke:argument-not-forwarded", "invoke copied an rvalue argument instead of forwarding it");
+                    }
+                    ++ctx.stateChanging;
+                    ++ctx.boundaryEvents;
+                    uint64_t sh0 = 0;
+                    for (int k = 0; k < 3; ++k) {
+                        ctx.log.kv("|", target[k].count);
+                        sh0 = mix64(sh0 ^ static_cast<uint64_t>(bound[k] + 1));
+                    }
+                    ctx.log.nl();
+                    continue;
+                }
                 bool ok = call(-1, false, false, [&] {
                     switch (form) {
                     case 0: ret = etl::invoke(&RefTarget::member, target[t], x); break;
@@ -829,7 +873,7 @@ struct RefDriver : DriverBase<RefDriver> {
     static auto ops() -> std::vector<OpDef> const&
     {
         static std::vector<OpDef> const o = {
-            {"fr_rebind", 5}, {"fr_copy", 5}, {"fr_call", 10}, {"fr_noexcept_fnptr", 3}, {"rw_rebind", 5}, {"rw_copy", 4}, {"rw_call", 8},
+            {"fr_const", 3}, {"fr_rebind", 5}, {"fr_copy", 5}, {"fr_call", 10}, {"fr_noexcept_fnptr", 3}, {"rw_rebind", 5}, {"rw_copy", 4}, {"rw_call", 8},
             {"bind_front", 6}, {"bind_front_copy", 3}, {"bind_front_lvalue_twice", 3}, {"not_fn", 5}, {"invoke", 8},
         };
         return o;
